@@ -4,6 +4,7 @@ import (
 	"encoding/json"
 	"errors"
 	"os"
+	"sync"
 
 	"github.com/getkin/kin-openapi/openapi3"
 )
@@ -172,7 +173,20 @@ type c12Case struct {
 	Vals []any `json:"vals"`
 }
 
+var c12Formats sync.Once
+
 func c12RunWith(c *Case, withText bool) []any {
+	// the opt-in and caller-defined string formats of the universe (process-wide registry)
+	c12Formats.Do(func() {
+		openapi3.DefineIPv4Format()
+		openapi3.DefineIPv6Format()
+		openapi3.DefineStringFormatValidator("x-even-length", openapi3.NewCallbackValidator(func(s string) error {
+			if len(s)%2 != 0 {
+				return errors.New("odd length")
+			}
+			return nil
+		}))
+	})
 	var tc c12Case
 	c.Decode(&tc)
 	line := map[string]any{"case": c.Idx, "s": tc.S}
@@ -211,6 +225,13 @@ func c12RunWith(c *Case, withText bool) []any {
 		r["pd"], _ = runMode(schema, v.num, openapi3.VisitAsResponse())
 		r["pf"], _ = runMode(schema, v.num, openapi3.VisitAsResponse(), openapi3.FailFast())
 		r["pm"], _ = runMode(schema, v.num, openapi3.VisitAsResponse(), openapi3.MultiErrors())
+		// with an option that changes what is checked: it must reach every subschema in every mode
+		r["nd"], _ = runMode(schema, v.num, openapi3.DisablePatternValidation())
+		r["nf"], _ = runMode(schema, v.num, openapi3.DisablePatternValidation(), openapi3.FailFast())
+		r["nm"], _ = runMode(schema, v.num, openapi3.DisablePatternValidation(), openapi3.MultiErrors())
+		r["ed"], _ = runMode(schema, v.num, openapi3.EnableFormatValidation())
+		r["ef"], _ = runMode(schema, v.num, openapi3.EnableFormatValidation(), openapi3.FailFast())
+		r["em"], _ = runMode(schema, v.num, openapi3.EnableFormatValidation(), openapi3.MultiErrors())
 		if !withText && r["d"] == "A" && r["m"] == "A" {
 			// nothing to report for an accepted value
 		} else {
